@@ -708,6 +708,22 @@ def _run(ctx, res):
                                                  what="the valid message after a streaming client was not delivered",
                                                  case=case, detail=r))
 
+    # the sender's side: whatever _tcp_send reports as sent must have reached the wire whole (a socket's send() may
+    # take only part of a large message), so that the receiver applies it
+    for n in (50, 700, 3000, 20000) + (() if ctx.quick else (80000, 400000)):
+        for send_max in (64, 512, 1460):
+            r = S.sender_probe(n, send_max=send_max)
+            res.note_case(("sender", n, send_max), True)
+            res.count("sender_side_messages")
+            if r["reported"] == 0 and not r["delivered"]:
+                res.failures.append(dict(
+                    signature="reported-sent-but-not-delivered",
+                    what="_tcp_send reported success for a %s-byte message of which %d bytes reached the wire (send() takes "
+                         "at most %d bytes per call); the receiver applied nothing" % (r["message_bytes"], r["wire_bytes"], send_max),
+                    case=dict(sender=True, text_len=n, send_max=send_max), detail=r))
+            elif r["reported"] != 0:
+                res.errors.append("sender probe: _tcp_send did not succeed on a healthy fake socket: %r" % (r,))
+
     # a connection reset (not in the model: oracle only) must not stop the listener either
     aes = dict(aes_messages(True))
     good = aes["sync-1"]
@@ -763,6 +779,12 @@ def replay(obj):
     case = obj.get("case") or {}
     if case.get("streaming"):
         return replay_stream(case)
+    if case.get("sender"):
+        r = S.sender_probe(case["text_len"], send_max=case["send_max"])
+        print("real _tcp_send on a socket whose send() takes at most %d bytes per call:" % case["send_max"], r)
+        bad = r["reported"] == 0 and not r["delivered"]
+        print("reported as sent, but the receiver applied nothing" if bad else "what was reported as sent was applied")
+        return 1 if bad else 0
     if case.get("late"):
         dist, dec, cr = get_dist("aes", case["trecv"], 2048)
         clock = S.FakeClock(start=1000.0, tick=0.02)
